@@ -521,6 +521,15 @@ func (h *c20H) do(op *c20Op) (wire, golit string, ok bool) {
 			h.vals = append(h.vals, v.WithMarks(g.mk))
 			g.given["withMarks"] = true
 			apiWire, apiLit = fmt.Sprintf("(withMarks %d %d)", op.a, op.b), fmt.Sprintf("%s := %s.WithMarks(%s)", vname(nv), vname(op.a), gname(op.b))
+		case "withSameMarks":
+			v, ok1 := h.val(op.a)
+			w, ok2 := h.val(op.b)
+			if !ok1 || !ok2 {
+				applies = false
+				return
+			}
+			h.vals = append(h.vals, v.WithSameMarks(w))
+			apiWire, apiLit = fmt.Sprintf("(withSameMarks %d %d)", op.a, op.b), fmt.Sprintf("%s := %s.WithSameMarks(%s)", vname(nv), vname(op.a), vname(op.b))
 		case "opAdd":
 			v, ok1 := h.val(op.a)
 			w, ok2 := h.val(op.b)
@@ -690,7 +699,7 @@ func (h *c20H) do(op *c20Op) (wire, golit string, ok bool) {
 		case "newPathSet":
 			h.pushGo(&c20Go{kind: "pset", ps: cty.NewPathSet()})
 			apiWire, apiLit = "(newPathSet)", fmt.Sprintf("%s := cty.NewPathSet()", gname(ng))
-		case "psAdd", "psHas":
+		case "psAdd", "psHas", "psRemove":
 			g := h.gk(op.a, "pset")
 			p := h.gk(op.b, "path")
 			if g == nil || p == nil || !c20pathPlain(p.path) {
@@ -702,6 +711,9 @@ func (h *c20H) do(op *c20Op) (wire, golit string, ok bool) {
 				g.ps.Add(p.path)
 				p.given["psAdd"] = true
 				apiLit = fmt.Sprintf("%s.Add(%s)", gname(op.a), gname(op.b))
+			} else if op.name == "psRemove" {
+				g.ps.Remove(p.path)
+				apiLit = fmt.Sprintf("%s.Remove(%s)", gname(op.a), gname(op.b))
 			} else {
 				h.outs = append(h.outs, " "+encBool(g.ps.Has(p.path)))
 				apiLit = fmt.Sprintf("_ = %s.Has(%s)", gname(op.a), gname(op.b))
